@@ -120,7 +120,7 @@ Definition fh_obs (fh : val) : val :=
 
 Definition obs_of_pkt (maxcap : N) (p : pkt) : msg_obs :=
   mkMsgObs (fh_obs (p_fh p)) (p_pid p) (p_topic p) (p_payload p) (p_origin p) (p_created p)
-           (deadline maxcap p) (wire_expiry p) (p_pf p) (p_pf_flag p) (p_mei p) (p_props p).
+           (deadline maxcap p) (wire_expiry p) (p_pf p) (p_pf_flag p) (p_mei p) (strip_alias (p_props p)).
 
 Definition is_nil {A} (l : list A) : bool := match l with [] => true | _ => false end.
 
